@@ -1,0 +1,30 @@
+'''
+Guarded observation hooks for external verification harnesses.
+
+Off by default: with the environment variable BCTPY_VERIF unset (or not
+equal to "1") ENABLED is False, no call site evaluates its arguments, and
+the library behaves exactly as without this module.  With BCTPY_VERIF=1 the
+call sites report algorithm-internal state (the working matrix after each
+accepted rewiring, the label vector after each accepted node move, ...) to a
+callback installed with set_callback().  The callback only observes; it must
+not modify what it is given.
+'''
+import os
+
+ENABLED = os.environ.get('BCTPY_VERIF', '') == '1'
+
+_callback = None
+
+
+def set_callback(cb):
+    '''Install (or with None remove) the observer. Returns the previous one.'''
+    global _callback
+    prev = _callback
+    _callback = cb
+    return prev
+
+
+def emit(event, **state):
+    cb = _callback
+    if cb is not None:
+        cb(event, state)
